@@ -157,6 +157,8 @@ PostN(f, i, o) ==
                cmeaning == /\ ZLe("-8000000000000000", i.v) /\ ZLe(i.v, "7fffffffffffffff")
                            /\ IF i.conv \in {"d", "i"} THEN ~fr.hash ELSE ~ZIsNeg(i.v) /\ ~fr.plus /\ ~fr.space
            IN  /\ o.g = want /\ o.ret = Len(want)
+               \* every other member of the family (sprintf, asprintf, fprintf, printf, obstack_printf and the va_list twins) produces the same text and count
+               /\ \A k \in DOMAIN o.alt : o.alt[k].t = want /\ o.alt[k].r = Len(want)
                /\ (cmeaning /\ i.havec = 1) => /\ o.c = CPrintf(FlagRec(fl), i.w, i.p, i.conv, i.v)        \* the specification agrees with the platform's C library
                                                  /\ (~DocumentedDeviation(fl, i.p, i.v) => o.g = o.c)        \* and MPIR is byte-identical to it
      [] f = "gmp_snprintf" ->       \* never more than size bytes, returns the full length
@@ -164,7 +166,9 @@ PostN(f, i, o) ==
            /\ (i.size > 0 => o.buf = SubSeq(i.expect, 1, IF i.size - 1 < Len(i.expect) THEN i.size - 1 ELSE Len(i.expect)))
      [] f = "gmp_asprintf" -> o.ret = Len(i.expect) /\ o.text = i.expect /\ o.blksz = Len(i.expect) + 1
      [] f = "gmp_printf_mixed" -> o.g = i.expect /\ o.ret = Len(i.expect)
-     [] f = "gmp_sscanf" -> o.ret = i.nfields /\ o.v = i.v
+     [] f = "gmp_printf_hp" -> o.ret = o.len /\ o.len > 0          \* operand of 20000 bits precision: the count is the length (the AddressSanitizer pass watches the table accesses)
+     [] f = "gmp_sscanf" -> /\ o.ret = i.nfields /\ o.v = i.v
+                            /\ \A k \in DOMAIN o.alt : o.alt[k].r = i.nfields /\ o.alt[k].v = i.v       \* gmp_fscanf, gmp_scanf (redirected stdin) and the va_list twins
         \* ---- C19: ranges of the mpn-level generators and whole-sample statistics
      [] f \in {"mpn_randomb", "mpn_rrandom"} -> ZLimbCount(o.r) = i.n                      \* exactly n limbs, top limb non-zero
      [] f = "mpn_urandomb" -> ZBitLen(o.r) <= i.bits
